@@ -141,6 +141,15 @@ func buildReplayBinary(repo string, spec LoadSpec, stubs []StubSpec, harnessName
 			ov[p] = []byte(out)
 		}
 	}
+	needLink := false
+	for _, v := range ov {
+		if bytes.Contains(v, []byte("//go:linkname")) {
+			needLink = true
+		}
+	}
+	if needLink {
+		ov[filepath.Join(dir, "zz_verif_empty.s")] = []byte("// allows bodiless (linknamed) function declarations\n")
+	}
 	repl := map[string]string{}
 	i := 0
 	for k, v := range ov {
@@ -157,7 +166,12 @@ func buildReplayBinary(repo string, spec LoadSpec, stubs []StubSpec, harnessName
 		return "", err
 	}
 	bin := filepath.Join(tmp, "replay.test")
-	cmd := exec.Command("go", "test", "-tags", "verif", "-vet=off", "-c", "-o", bin, "-overlay", ovPath, "./"+spec.PkgDir)
+	args := []string{"test", "-tags", "verif", "-vet=off", "-c", "-o", bin, "-overlay", ovPath}
+	if needLink {
+		args = append(args, "-ldflags=-checklinkname=0")
+	}
+	args = append(args, "./"+spec.PkgDir)
+	cmd := exec.Command("go", args...)
 	cmd.Dir = repo
 	cmd.Env = append(os.Environ(), "GOFLAGS=-mod=mod", "GOPROXY=off", "GOSUMDB=off", "GOTOOLCHAIN=local")
 	outb, err := cmd.CombinedOutput()
